@@ -50,6 +50,41 @@ fn some_uri(rng: &mut Rng, s: &Server, keys: &[String]) -> (String, &'static str
     }
 }
 
+/// pinned session: every code action offered on a block reference from a note to itself (spelled plainly, with ./ and with
+/// .md) is resolved; each resolve must be answered and the server must go on serving. (Inlining a note into itself once
+/// recursed without bound and took the whole process down: the worker process dies, which C12 counts as a violation.)
+fn self_reference_session(rep: &mut CaseReport) {
+    let mut lib: BTreeMap<String, String> = BTreeMap::new();
+    lib.insert("d/self".into(), "# Self\n\n## Part\n\n[me](self)\n\n[me again](./self.md)\n\ntext\n".into());
+    lib.insert("other".into(), "# Other\n\n[to self](d/self)\n".into());
+    lsp::reset_log();
+    mon::drain_thread_panics();
+    let mut s = Server::start_mem(&lib, "");
+    let uri = s.uri("d/self");
+    let replay = json!({"library": lib, "session": "codeAction on every line of d/self, resolve every action"});
+    for line in 0..8u64 {
+        let acts = match s.request("textDocument/codeAction", json!({"textDocument": {"uri": uri}, "range": {"start": {"line": line, "character": 0}, "end": {"line": line, "character": 0}}, "context": {"diagnostics": []}})) {
+            Outcome::Result(v) => v.as_array().cloned().unwrap_or_default(),
+            other => {
+                rep.violate("no-response", "pinned:self-reference", format!("codeAction at line {}: {:?}", line, other), replay.clone());
+                Vec::new()
+            }
+        };
+        for a in acts {
+            rep.count("events", 1);
+            rep.count("pinned_self_reference_resolves", 1);
+            let o = s.request("codeAction/resolve", a.clone());
+            if !o.answered() {
+                rep.violate("no-response", "pinned:self-reference", format!("codeAction/resolve of `{}` at line {}: {:?}", a["title"], line, o), replay.clone());
+            }
+        }
+    }
+    if s.formatted_text("other").is_none() {
+        rep.violate("server-stopped-serving", "pinned:self-reference", "formatting of another note is not answered after the session".into(), replay.clone());
+    }
+    let _ = s.shutdown();
+}
+
 /// one session against the real `iwes` binary over stdio (Content-Length framing, real initialize handshake)
 fn stdio_session(rep: &mut CaseReport) {
     use std::io::{BufRead, BufReader, Read, Write};
@@ -194,6 +229,11 @@ impl Check for C12 {
     fn rule(&self) -> String {
         "case = one in-memory LSP session (real main_loop + worker threads) on a generated library: a random sequence of requests over every method in Router::on_request x hostile parameter values (unknown / outside / non-file / percent-encoded URIs, positions past EOL / EOF / u32::MAX, stale / missing / mistyped code-action data, taken / empty / slashed rename names, unknown commands and methods, mistyped params), interleaved with edits; each request's outcome is decided on hook event Exited(id) (exactly one response by then), followed by a liveness probe (formatting of a known note vs an independent model); the loop must end Ok on shutdown/exit; distinct = (method, parameter class) pairs x outcome kind".into()
     }
+    fn death_is_violation(&self) -> bool {
+        // the server runs inside the worker process: a request that kills the process (a stack overflow is not a panic and
+        // passes every catch_unwind) has not been answered and nothing is served any more
+        true
+    }
     fn assumptions(&self) -> Vec<String> {
         vec![
             "server driven in-process over lsp_server::Connection::memory(); configuration has a `default` model with empty api_key_env so no network path is reachable".into(),
@@ -215,6 +255,9 @@ impl Check for C12 {
         let mut rep = CaseReport::new(case);
         if case == 0 {
             stdio_session(&mut rep);
+        }
+        if case == 1 {
+            self_reference_session(&mut rep);
         }
         let mut rng = Rng::for_case(seed, "c12", case);
         let mut lib = small_lib(&mut rng, tier);
